@@ -22,7 +22,8 @@ RULE = ("generated literal interface family (as C01, without rpc/encoded) x ever
         ' ; unknown attribute steps (@name) raise TypeNotFound'
         ' ; pre-built nested children like their type; unknown steps in the middle of a path'
         ' ; simpleContent over an enumeration without attributes'
-        ' ; names of built-in typed steps; bare simpleContent; member order of derived types')
+        ' ; names of built-in typed steps; bare simpleContent; member order of derived types'
+        ' ; a local element by its own name')
 ASSUMPTIONS = ["a name with a prefix the client does not know raises a plain Exception('prefix not resolved'), not "
                "TypeNotFound: unknown *prefixes* are outside the alphabet of unknown names",
                "factory objects of section-5 array types are outside the family",
